@@ -48,7 +48,7 @@ static void mon_stop_effects(int s) {
         if (m->src[i].present && m->src[i].kind == K_FD && (m->src[i].flags & 1)) { /* AUTOCLOSE: the user fd is closed by the library now */ UFD[m->src[i].key].open_rd = 0; }
         m->src[i].present = 0;
     }
-    m->ever_batched = 0; m->nst = 0; m->nhs = 0; m->batch_size = 0; m->batch_tmo = 0; m->batch_fired = 0; m->tb_rate = 0; m->tb_burst = 0;
+    m->ever_batched = 0; m->batch_due = 0; m->ba_unsure = 0; m->nst = 0; m->nhs = 0; m->batch_size = 0; m->batch_tmo = 0; m->batch_fired = 0; m->tb_rate = 0; m->tb_burst = 0;
     m->st = S_STOPPED; mt_del_all(s);
 }
 
@@ -65,7 +65,7 @@ static void cb_enter(int s, int kind) {
         break;
     case CB_START:
         if (exp_start[s] > 0) { exp_start[s]--; break; }
-        if (m->st == S_IDLE && in_pass && CX.looping && (m->evalmode == 0 || eval_ok[s])) { m->st = S_RUNNING; eval_ok[s] = 0; break; }    /* started by the evaluation pass */
+        if (m->st == S_IDLE && in_pass && CX.looping && (m->evalmode == 0 || eval_ok[s])) { m->st = S_RUNNING; eval_ok[s] = 0; mt_arm_all(s, 1); break; }    /* started by the evaluation pass */
         if (ON(R_CB)) vfail("CB.pair", "CB.pair|start-unexpected", "on_start called for %s (state %s) without a start, resume-from-stop or successful evaluation", m->name, SN[m->st]);
         break;
     case CB_STOP:
@@ -242,7 +242,7 @@ static void handle_events(int s, const m_queue_t *evts, int handler_id) {
             cur_evrec[i] = -1;
             switch (e->type) {
             case M_SRC_TYPE_PS: { int high = 0, prio = PR_NORM; deliver_ps(s, e, i, &high, &prio); nps++;
-                trig = high || (prio == PR_NORM && (size_t)(i + 1) >= m->batch_size); break; }
+                trig = high || (prio == PR_NORM && (size_t)(i + 1) >= eff_batch(s)); break; }
             case M_SRC_TYPE_FD: {
                 int k = -1, si = -1;
                 for (int j = 0; j < MAXSRC; j++) if (m->src[j].present && m->src[j].kind == K_FD && e->userdata == &SRCUP[s][j]) { si = j; k = m->src[j].key; }
@@ -259,7 +259,7 @@ static void handle_events(int s, const m_queue_t *evts, int handler_id) {
                 if (si < 0) vfail("EV.owner", "EV.owner|tmr", "%s received a timer event whose user pointer matches none of its timer sources (internal timer leaked to the user?)", m->name);
                 if (e->tmr_evt->ns != TPER[m->src[si].key]) vfail("EV.owner", "EV.owner|tmr-value", "%s: timer event reports %lu ns, registered %lu", m->name, (unsigned long)e->tmr_evt->ns, (unsigned long)TPER[m->src[si].key]);
                 if (!m->src[si].fired) vfail("EV.ghost", "EV.ghost|tmr", "%s received a timer event although the timer did not expire", m->name);
-                m->src[si].fired = 0; trig = (size_t)(i + 1) >= m->batch_size; cur_evrec[i] = new_evrec(e, 2, -1, m->src[si].key); obs(7000 + si);
+                m->src[si].fired = 0; trig = (size_t)(i + 1) >= eff_batch(s); cur_evrec[i] = new_evrec(e, 2, -1, m->src[si].key); obs(7000 + si);
                 if (m->src[si].flags & 2) m->src[si].present = 0;
                 break; }
             default: vfail("EV.type", "EV.type", "%s received an event of unexpected type %d", m->name, e->type);
@@ -268,10 +268,11 @@ static void handle_events(int s, const m_queue_t *evts, int handler_id) {
             if (i == n - 1) last_trigger = trig;
         }
         if (ON(R_BA) && !flush_phase) {
-            if (trigger_seen_at >= 0) vfail("BA.when", "BA.when|late", "%s: invocation carries %d events but event %d already required an invocation (high priority, or normal priority with the batch size %zu reached)", m->name, n, trigger_seen_at, m->batch_size);
-            if (!last_trigger && !m->batch_fired) vfail("BA.when", "BA.when|early", "%s: handler invoked with %d events although the last one neither is high priority nor reaches the batch size %zu, and no batch timeout expired", m->name, n, m->batch_size);
+            if (trigger_seen_at >= 0 && !m->ba_unsure) vfail("BA.when", "BA.when|late", "%s: invocation carries %d events but event %d already required an invocation (high priority, or normal priority with the batch size %zu reached)", m->name, n, trigger_seen_at, eff_batch(s));
+            if (!last_trigger && !m->batch_fired) vfail("BA.when", "BA.when|early", "%s: handler invoked with %d events although the last one neither is high priority nor reaches the batch size %zu, and no batch timeout expired", m->name, n, eff_batch(s));
         }
         m->batch_fired = 0;
+        if (m->nmb == 0) m->ba_unsure = 0;
     }
     run_armed(s, CB_EVT);
     /* handler returns: the library may now release what nobody retained */
